@@ -980,6 +980,8 @@ class SubsFamily(ReorgFamily):
                 ops.append(dict(op='c_hsub', c=c, at=at))
             elif r < 0.75:
                 ops.append(dict(op='c_unsub', c=c, s=rng.randrange(8), at=at))
+                if rng.random() < 0.3:
+                    ops.append(dict(op='admin_query', s=rng.randrange(8), limit=rng.choice([1, 2, 5, 1000]), at=at))
             elif r < 0.82:
                 ops.append(dict(op='c_disconnect', c=c, at=at))
             elif r < 0.9:
@@ -1069,6 +1071,27 @@ class SubsFamily(ReorgFamily):
                     plan.append(dict(op='settle'))
                 plan.append(dict(op='fork', depth=1, extra=1, ntx=[rng.randint(0, 3), 2], remine=0.0,
                                  at=round(rng.uniform(0, 3), 3), seed=rng.getrandbits(32)))
+                plan.append(dict(op='settle'))
+                continue
+            if rng.random() < 0.15:
+                # motif: the header read at the start of a notification round is slow, and a client that was not
+                # connected before connects and subscribes while it is under way
+                k['stall_boost'] = ('read_headers', rng.choice([0.6, 0.9]), rng.choice(['MemPool', 'BlockProcessor', '']),
+                                    'timed')
+                k['stall_p'] = 0.0
+                k['preempt'] = True
+                tq = round(rng.uniform(0.2, 2.0), 2)
+                n = rng.randint(1, 2)
+                plan.append(dict(op='mine', n=n, ntx=[rng.randint(2, 7) for _ in range(n)], at=tq,
+                                 seed=rng.getrandbits(32), confirm=rng.choice([0.0, 1.0])))
+                for j in range(rng.randint(1, 3)):
+                    cn = nclients + j
+                    t0 = round(tq + rng.uniform(0.2, 14.0), 2)
+                    plan.append(dict(op='c_hsub', c=cn, at=t0))
+                    for _ in range(rng.randint(1, 3)):
+                        plan.append(dict(op='c_sub', c=cn, s=self.pick_s(rng, k), at=round(t0 + rng.uniform(0, 1.0), 2)))
+                nclients += 3
+                plan.append(dict(op='wait', dt=rng.choice([20.0, 40.0])))
                 plan.append(dict(op='settle'))
                 continue
             if rng.random() < 0.15:
@@ -1320,6 +1343,24 @@ class ProofsFamily(StaleFamily):
                                  rep=rng.choice([30, 45, 60]), every=rng.choice([0.15, 0.2, 0.3])))
             plan.append(dict(op='fork', depth=d, extra=1, ntx=[big() for _ in range(d)] + [2], remine=0.0,
                              at=tq, seed=rng.getrandbits(32)))
+            plan.append(dict(op='settle'))
+        elif rng.random() < 0.2:
+            # motif: the server is restarted and a fork arrives while it is still populating its header merkle
+            # cache (the header reads of that start-up task are slow)
+            k, plan = case['knobs'], case['plan']
+            nclients = 1 + max([op['c'] for op in plan if 'c' in op] or [0])
+            k['stall_boost'] = ('read_headers', rng.choice([0.6, 0.9]), 'populate_header_merkle_cache', 'timed')
+            k['stall_p'] = 0.0
+            k['preempt'] = True
+            plan.append(dict(op='restart'))
+            d = rng.choice([1, 1, 2, 3])
+            plan.append(dict(op='fork', depth=d, extra=rng.choice([0, 1, 1, 2]), ntx=ntx_list(rng, d + 2),
+                             remine=rng.choice([0.0, 0.5]), at=round(rng.uniform(0.0, 8.0), 2),
+                             seed=rng.getrandbits(32)))
+            for _ in range(rng.randint(0, 2)):
+                plan.append(dict(op='c_query', c=rng.randrange(nclients), m='header', h=rng.randrange(1000),
+                                 cp=rng.randrange(1, 1000), at=round(rng.uniform(0.0, 15.0), 2)))
+            plan.append(dict(op='wait', dt=rng.choice([10.0, 30.0])))
             plan.append(dict(op='settle'))
         elif rng.random() < 0.3:
             # motif: header proofs with the old tip as checkpoint all through a fork, while the block processor's
